@@ -13,7 +13,7 @@ import (
 
 func init() {
 	register("C06", &propDef{
-		Run: checkC06,
+		Run:         checkC06,
 		Explanation: "Static decision of the pairing clause. In the function which admits both directions for one caller (ConnectInOut) the key handed to the two admitting calls is one SSA value which is fresh per call: it contains bytes produced inside this call by crypto/rand (or a math/rand top-level draw / atomic counter), of at least 8 bytes, with the generator's error checked before use; the admitting functions pass their key parameter unchanged to the admission function; and (C01's admission table, re-evaluated here) attached halves always carry keys compared in full with Broker.key, which receives the caller's key itself. Hence two halves can only be paired when they carry the same per-call token, i.e. belong to the same ConnectInOut call; the /io handler makes exactly one such call with the writer and body of its own request. At most one request becomes the shell by C01.",
 		Assumptions: []string{"crypto/rand output does not repeat between calls (16 random bytes)"},
 	})
